@@ -42,6 +42,7 @@ import json
 from bounded.common import *  # noqa: F401,F403
 from bounded.common import build_tree, shapes_exact, shapes_upto, length_patterns, pmap, rng_for, n_leaves, LABELS, with_unifurcations, time_limit, Timeout
 from specs import trees as S
+from bounded.guard import cpu_limit, CpuTimeout
 from specs import induced as I
 from specs import bipart as BP
 
@@ -65,11 +66,11 @@ def guarded(variant, fn):
     if _HANGS.get(variant, 0) >= HANG_LIMIT:
         raise Hang("not run: this variant already hung %d times in this worker" % HANG_LIMIT)
     try:
-        with time_limit(HANG_SECONDS):
+        with cpu_limit(HANG_SECONDS):
             return fn()
-    except Timeout:
+    except CpuTimeout:
         _HANGS[variant] = _HANGS.get(variant, 0) + 1
-        raise Hang("no result after %s s" % HANG_SECONDS)
+        raise Hang("no result after %s s of CPU time" % HANG_SECONDS)
 
 PATS = length_patterns()
 PATS["zeros"] = lambda i, leaf: (0.0 if i % 2 else 1.5)
